@@ -54,7 +54,7 @@ class C12(core.Check):
         'pos:end+1', 'pos:member', 'pos:neighbour', 'pos:negative', 'pos:umax', 'pos:umax+1', 'pos:smin', 'pos:smin-1',
         'pos:page-last', 'pos:next-page-first', 'pos:prev-page-last', 'zone:GLOBAL', 'zone:redefined-GLOBAL', 'zone:named',
         'rel:from-end', 'rel:from-start', 'slice:same-page', 'slice:other-page', 'w:non-byte-multiple', 'w:byte-multiple',
-        'expect:ACCEPT', 'expect:REJECT', 'muted-statement', 'second-step-of-a-macro']}
+        'expect:ACCEPT', 'expect:REJECT', 'muted-statement', 'second-step-of-a-macro', 'value-as-expression']}
 
     def one(self, conf, text, op, addr, tags, addr_bits=16, endian='big', zones=None, gz=None, origin=None, opcode_bits=8,
             fmt='json'):
@@ -152,6 +152,13 @@ class C12(core.Check):
                 for v in sorted(cands):
                     pos = 'member' if v in members else ('negative' if v < 0 else 'neighbour')
                     yield self.one(conf, lit(v), {'id': 'o', 'val': v}, 0, ['kind:numeric_enumeration', 'pos:' + pos])
+                    if v >= 0:
+                        # the same value written as an expression with each operator (membership is about the value)
+                        forms = [f'{v}*1', f'{2 * v}/2', f'{v}<<0', f'{4 * v}>>2', f'{v}&$FFFF', f'{v}|0', f'{v}^0', f'({v})', f'{v + 3}-3', f'1+{v}-1',
+                                 f'{v} * 1', f'{v} | 0']
+                        k_ = (v + len(members)) % len(forms)
+                        for t_ in (forms[k_], forms[(k_ + 5) % len(forms)]):
+                            yield self.one(conf, t_, {'id': 'o', 'val': v}, 0, ['kind:numeric_enumeration', 'pos:' + pos, 'value-as-expression'])
         # address / valid_address in GLOBAL, redefined GLOBAL, named zone
         for ab in (8, 12, 16):
             top = (1 << ab) - 1
